@@ -69,7 +69,7 @@ DICT_MUTATORS = [
     Op("setitem_new", lambda t, a: t.__setitem__("q", a.v), v=True),
     Op("delitem", lambda t, a: t.__delitem__("p")),
     Op("delitem_missing", lambda t, a: t.__delitem__("q")),
-    Op("pop", lambda t, a: t.pop("p")),
+    Op("pop", lambda t, a: t.pop("p"), ref=lambda t, a: t.pop("p", None)),
     Op("pop_missing", lambda t, a: t.pop("q"), ref=lambda t, a: t.pop("q", None)),
     Op("pop_missing_default", lambda t, a: t.pop("q", a.v), v=True),
     Op("popitem", lambda t, a: t.popitem()),
@@ -85,6 +85,8 @@ DICT_MUTATORS = [
     Op("setdefault_new_nodefault", lambda t, a: t.setdefault("q")),
     Op("reset", lambda t, a: t.reset({"q": a.v}), ref=lambda t, a: _reset_dict_ref(t, A(v={"q": a.v})), v=True),
     Op("reset_empty", lambda t, a: t.reset({}), ref=lambda t, a: t.clear()),
+    Op("reset_larger", lambda t, a: t.reset({"q": a.v, "r": a.w}), ref=lambda t, a: _reset_dict_ref(t, A(v={"q": a.v, "r": a.w})), v=True, w=True),
+    Op("update_two_new", lambda t, a: t.update({"q": a.v, "r": a.w}), v=True, w=True),
 ]
 
 LIST_MUTATORS = [
@@ -105,6 +107,7 @@ LIST_MUTATORS = [
     Op("clear", lambda t, a: t.clear()),
     Op("reset", lambda t, a: t.reset([a.v]), ref=lambda t, a: _reset_list_ref(t, A(v=[a.v])), v=True),
     Op("reset_empty", lambda t, a: t.reset([]), ref=lambda t, a: t.clear()),
+    Op("reset_longer", lambda t, a: t.reset([a.v, a.w, a.v]), ref=lambda t, a: _reset_list_ref(t, A(v=[a.v, a.w, a.v])), v=True, w=True),
 ]
 
 # extended slice forms (C03 thorough)
